@@ -578,6 +578,46 @@ def check_lzma2_flags(ck, prog):
           key="LZMA2:uncompressed-needs-reset")
 
 
+def check_emit_state(ck, prog, rule="C01-EMITSTATE"):
+    """rc_shift_low() can stop in the middle of its loop when the output buffer is full (`return true`) and is entered
+    again from the top with the next buffer: whatever the loop carries from one iteration to the next has to live in
+    the lzma_range_encoder record (rc->cache, rc->cache_size), never in a local."""
+    ck.rule(rule, "the byte loop of rc_shift_low carries its state in rc members only: no local that is declared outside the "
+            "loop is assigned inside it (the function can return from inside the loop and be re-entered)")
+    fs = [f for f in prog.functions.get("rc_shift_low", []) if f.blocks]
+    if not fs:
+        raise AnalysisBroken("rc_shift_low vanished")
+    f = fs[0]
+    ck.saw_function(f)
+    loop = {b for b in f.blocks if cfg.in_cycle(f, b)} if hasattr(cfg, "in_cycle") else \
+        {b for b in f.blocks if b in cfg.reachable(f, [y for y in f.blocks[b].succs if y is not None])}
+    rets_in_loop = [b.id for b, i, e in f.iter_elems() if ex.deref(e).get("k") == "ret"
+                    and any(p in loop for p in f.blocks[b.id].preds)]
+    if not loop or not rets_in_loop:
+        raise AnalysisBroken("rc_shift_low: loop with an early return not found")
+    declared_in_loop = set()
+    for b, i, e in f.iter_elems():
+        d = ex.deref(e)
+        if d.get("k") == "decl" and b.id in loop:
+            declared_in_loop.add(d["n"])
+    bad = None
+    n = 0
+    for b, i, e in f.iter_elems():
+        if b.id not in loop:
+            continue
+        for (l, r, op, node) in ex.writes(e):
+            ls = ex.strip(l)
+            n += 1
+            if ls is not None and ls.get("k") == "var" and ls.get("s") != "p" and ls["n"] not in declared_in_loop:
+                bad = bad or (ls["n"], node)
+    ck.ob(rule, "rc_shift_low", bad is None, common.where(f, bad[1] if bad else None),
+          "rc_shift_low: the %d stores inside the byte loop go to rc members / *out_pos / out[]" % n if bad is None else
+          "rc_shift_low(): local `%s` is assigned inside the byte loop (`%s`) but the function returns from inside that loop "
+          "when the output buffer is full and starts again from the top on the next call: the value is lost, so the bytes "
+          "emitted depend on where the output buffer ended" % (bad[0], ex.show(bad[1])[:60]),
+          key="EMITSTATE:rc_shift_low")
+
+
 def check_outpos(ck, prog):
     """The range encoder's byte emitters (real and dummy) advance *out_pos one byte at a time, each step behind the
     test `*out_pos == out_size`: the dummy must stop exactly where the real one would, otherwise the size prediction
@@ -845,6 +885,7 @@ def run(ck):
     check_lzma2_flags(ck, prog)
     check_order(ck, prog)
     check_outpos(ck, prog)
+    check_emit_state(ck, prog)
     check_window(ck, prog)
     check_limit_terms(ck, prog)
     # a mid-stream lc/lp/pb change must reset the encoder's model too (C12), and the size bound that becomes the Compressed
